@@ -25,7 +25,7 @@ SOURCES = {
     'reqwest::async_impl::response::Response::content_length': V2,
 }
 CLOSURE_RESULT_ADAPTERS = ('::map', '::filter_map', '::flat_map', '::and_then', '::then', '::map_while')
-BOUNDED_RESULT = ('::binary_search', '::binary_search_by', '::binary_search_by_key', '::position', '::rposition')
+BOUNDED_RESULT = ('::binary_search', '::binary_search_by', '::binary_search_by_key', '::position', '::rposition', 'str::find', 'str::rfind')
 GROWERS = ('::push', '::insert', '::extend', '::extend_from_slice', '::push_back', '::push_front', '::push_str', '::append', '::put', '::put_slice', '::entry')
 CARDINALITY_READERS = ('::len', '::capacity', '::count', '::remaining', '::size_hint')
 CMP = {'Lt', 'Le', 'Gt', 'Ge', 'Eq', 'Ne'}
@@ -141,7 +141,7 @@ class Taint:
             r = True
         elif k in ('ref', 'tuple', 'adt', 'closure', 'coroutine'):
             args = [b.ty(i) for i in ty.get('args', [])]
-            if k == 'adt' and ty.get('adt', '').startswith(('bytes::', 'alloc::string::', 'std::ffi::', 'std::path::')):
+            if k == 'adt' and ty.get('adt', '').startswith(('bytes::', 'alloc::string::', 'std::ffi::', 'std::path::', 'core::str::')):
                 r = True
             elif k in ('closure', 'coroutine'):
                 r = True
@@ -771,7 +771,9 @@ class Taint:
             g = f.bodies[d]
             self.pass_args(b, bi, g, args, lv)
             res = self.TR.get(g.id, 0)
-        elif self.impls_of(gq):
+        elif self.impls_of(gq) and not (c.get('rdef') and c.get('rdef') != c.get('def') and c['rdef'] not in f.bodies):
+            # (a trait method call on a generic / dyn receiver: every implementation in the crates; a call resolved to a foreign
+            # implementation - `<String as Clone>::clone` - is an ordinary foreign call)
             for g in self.impls_of(gq):
                 self.pass_args(b, bi, g, args, lv)
                 res |= self.TR.get(g.id, 0)
@@ -870,6 +872,30 @@ class Taint:
                                 if 'q' in ct['callee'] and callee_q(ct).endswith('is_char_boundary') and cbi in dom:
                                     g = cbi
                             out.append(self.site(b, 'str-slice', [t['args'][0]], t['loc'], l0, g is not None, [g]))
+                    if gq in ('core::ops::index::Index::index', 'core::ops::index::IndexMut::index_mut') and len(t['args']) == 2 and \
+                            t['args'][0]['k'] in ('copy', 'move') and self.const_of(b, t['args'][1]) is not None and (self.op_level(b, t['args'][0]) & C):
+                        # a fixed position in a list whose *length* the peer chooses (`parts[2]` of a split version string): out of
+                        # range for a short list whatever the index; discharged by a dominating test of that list's len() / is_empty()
+                        base = b.base_of(t['args'][0])
+                        rty = b.lty(base[0]) if base else {}
+                        while rty.get('k') in ('ref', 'rawptr') and rty.get('args'):
+                            rty = b.ty(rty['args'][0])
+                        if base and rty.get('k') != 'array':
+                            lk = ('LEN', base[0], tuple(x[1] for x in base[1]))
+                            keys = {lk}
+                            for cbi_, ct_ in b.calls():
+                                if 'q' in ct_['callee'] and callee_q(ct_).endswith('::len') and ct_['args'] and not ct_['dest']['p']:
+                                    cb_ = b.base_of(ct_['args'][0])
+                                    if cb_ and cb_[0] == base[0] and [x[1] for x in cb_[1]] == [x[1] for x in base[1]]:
+                                        k_ = self.vkey(b, {'k': 'copy', 'pl': {'l': ct_['dest']['l'], 'p': []}})
+                                        if k_:
+                                            keys.add(k_)
+                            dom_ = b.dominators().get(bi, set())
+                            g = None
+                            for cb2, ents in self.cmp_blocks(b).items():
+                                if cb2 in dom_ and cb2 != bi and any(e_[0] in keys for e_ in ents):
+                                    g = cb2
+                            out.append(self.site(b, 'index-const', [t['args'][0]], t['loc'], 1, g is not None, [g]))
                     for key in (q, gq):
                         if key in SINK_CALLS:
                             for ai in SINK_CALLS[key]:
